@@ -45,6 +45,8 @@ type c16Rig struct {
 	contract *rhp4.ContractRevision // a contract for renew / refresh
 	// leaveUnconfirmed: a successful formation is not followed by a block
 	leaveUnconfirmed bool
+	// hostWalletBehind: the host's wallet has not seen the newest blocks
+	hostWalletBehind bool
 }
 
 var errInjectedDial = errors.New("verif: injected dial failure")
@@ -257,6 +259,9 @@ func (c *c16Rig) attempt(op, kind string) {
 	hostAfter, renterAfter := viewWallet(e, c.hw), viewWallet(e, c.rw)
 
 	if err == nil {
+		if c.hostWalletBehind {
+			e.Probe("succeeded_with_host_wallet_behind")
+		}
 		// success: both hold the same fully signed contract; the set is usable
 		if !hostRecorded {
 			e.Violationf("C16.same-contract", op+":host-has-none", "%s succeeded for the renter but the host recorded no contract", op)
@@ -312,6 +317,11 @@ func (c *c16Rig) attempt(op, kind string) {
 		if _, in := snapPool(e, "C16", c.s.cm).ids[lastTxnID(c.contractor.calls[n0:])]; !in {
 			e.Violationf("C16.no-trace", op+":recorded-not-broadcast", "the host recorded a contract although the %s failed for the renter, and its transaction is not in the host's pool", op)
 		}
+		if kind == "none" {
+			// nothing was lost on the way: a host that records the contract has
+			// no reason to answer with an error
+			e.Violationf("C16.no-trace", op+":recorded-yet-error:"+c.relation, "undisturbed %s (renter %s, host wallet behind its chain: %v) failed for the renter (%v) although the host recorded the contract and pooled its transaction", op, c.relation, c.hostWalletBehind, err)
+		}
 		e.Probe("host_completed_renter_failed")
 		c.mine(1)
 		if c.rs != c.s {
@@ -352,9 +362,40 @@ func (c *c16Rig) attempt(op, kind string) {
 		c.refreshPrices()
 		return
 	}
+	if c.hostWalletBehind {
+		// the host works from its wallet's basis; a renter input younger than
+		// that cannot be expressed there and the host refuses. The property asks
+		// for a confirmable contract or no trace (checked above), not for success.
+		e.Probe("failed_with_host_wallet_behind")
+		return
+	}
 	if kind == "none" && !strings.HasPrefix(c.relation, "unknown-fork") && !strings.HasPrefix(c.relation, "stale-fork") {
 		e.Violationf("C16.honest-rpc", op+":"+c.relation, "undisturbed %s (renter %s) failed: %v", op, c.relation, err)
 	}
+}
+
+// thirdPartyPayment builds a payment that involves neither wallet.
+func (c *c16Rig) thirdPartyPayment() (types.V2Transaction, bool) {
+	p := snapPool(c.e, "C16", c.s.cm)
+	for try := 0; try < 8; try++ {
+		tb := gen.NewTxBuilder(c.e, c.tip.L)
+		tb.Adopt(p.v1, p.v2)
+		txn := types.V2Transaction{SiacoinOutputs: []types.SiacoinOutput{{Address: types.VoidAddress, Value: types.Siacoins(1)}}}
+		if !tb.FundV2(&txn, types.Siacoins(1)) {
+			continue
+		}
+		ok := true
+		for _, in := range txn.SiacoinInputs {
+			if a := in.Parent.SiacoinOutput.Address; a == c.hw.Address() || a == c.rw.Address() {
+				ok = false
+			}
+		}
+		if ok {
+			tb.SignV2(&txn)
+			return txn, true
+		}
+	}
+	return types.V2Transaction{}, false
 }
 
 func lastTxnID(calls []contractorCall) types.TransactionID {
@@ -487,9 +528,32 @@ func runC16(e *sim.Env) {
 		if op == "form" && i < attempts-1 && e.Chance(1, 5) {
 			c.leaveUnconfirmed = true
 		}
+		if c.relation == "same-tip" && e.Chance(1, 5) {
+			// the host's wallet has not been told about the newest blocks yet
+			// (its chain manager has): what it funds comes with an older basis.
+			// The blocks are not empty (a payment between two bystanders), so
+			// that the proofs of older elements really change.
+			for j, k := 0, e.Range(1, 3); j < k; j++ {
+				if txn, ok := c.thirdPartyPayment(); ok {
+					if _, err := c.s.cm.AddV2PoolTransactions(c.tip.Index(), []types.V2Transaction{txn}); err == nil {
+						e.Probe("bystander_payment_pooled")
+					} else {
+						e.Logf("bystander payment rejected: %v", err)
+						e.Probe("bystander_payment_rejected")
+					}
+				} else {
+					e.Probe("no_bystander_funds")
+				}
+				c.mineOpt(1, false)
+			}
+			c.hostWalletBehind = true
+			e.Fault("host-wallet-behind-its-chain")
+		}
 		kind := c16Faults[e.Pick(3, 1, 1, 1, 1, 1, 1, 1, 1, 1, 1, 1, 1, 1)]
 		c.attempt(op, kind)
 		c.leaveUnconfirmed = false
+		c.hostWalletBehind = false
+		c.syncAll()
 		if op != "form" && c.contract != nil && e.Chance(1, 2) {
 			// renewed contracts cannot be renewed again from the old revision
 			c.contract = nil
@@ -506,7 +570,7 @@ var _ = sim.NewEnv
 func init() {
 	register(&Prop{
 		ID: "C16", Run: runC16, Quick: 1500, Thorough: 40000, Level: "fault_enumeration",
-		Rule:        "one run = a drawn basis relation between renter and host node (shared node; two nodes at the same tip; renter behind by 1-10 blocks; renter on a fork the host has seen and left; renter on a fork the host never saw - from the start, or only after a contract was formed and confirmed, so that renewals and refreshes meet it too; the host's node moving ahead of the renter's only after a contract was confirmed; a formed contract left unconfirmed (nobody mines) before the next renewal / refresh; optionally the renter's funds are unconfirmed outputs with pooled parents) and 3-8 form / renew / refresh (full, partial) attempts through the real client and server, each disturbed at one point of the exchange {none, dial fails, request dropped, host inputs dropped, stream cut after host inputs, renter signatures dropped / truncated mid-message, renter contract signature corrupted, renter input signature corrupted, final response dropped after the host recorded the contract, host inputs falsified, final set falsified, the host's signature on the new contract or on the renewal corrupted in its final transaction}; oracles: success => renter and host hold the same doubly signed contract, the returned set is accepted by a fresh pool at the host's tip and, mined, creates exactly that contract with the agreed funding; failure => either the host completed the exchange (contract recorded AND its transaction pooled) or nobody keeps a trace: Balance and SpendableOutputs of BOTH wallets are identical to before; a final undisturbed formation must still succeed; distinct = (op, relation, fault, outcome) traces",
+		Rule:        "one run = a drawn basis relation between renter and host node (shared node; two nodes at the same tip; renter behind by 1-10 blocks; renter on a fork the host has seen and left; renter on a fork the host never saw - from the start, or only after a contract was formed and confirmed, so that renewals and refreshes meet it too; the host's node moving ahead of the renter's only after a contract was confirmed; a formed contract left unconfirmed (nobody mines) before the next renewal / refresh; the host's wallet 1-4 blocks behind the host's own chain manager; optionally the renter's funds are unconfirmed outputs with pooled parents) and 3-8 form / renew / refresh (full, partial) attempts through the real client and server, each disturbed at one point of the exchange {none, dial fails, request dropped, host inputs dropped, stream cut after host inputs, renter signatures dropped / truncated mid-message, renter contract signature corrupted, renter input signature corrupted, final response dropped after the host recorded the contract, host inputs falsified, final set falsified, the host's signature on the new contract or on the renewal corrupted in its final transaction}; oracles: success => renter and host hold the same doubly signed contract, the returned set is accepted by a fresh pool at the host's tip and, mined, creates exactly that contract with the agreed funding; failure => either the host completed the exchange (contract recorded AND its transaction pooled) or nobody keeps a trace: Balance and SpendableOutputs of BOTH wallets are identical to before; a final undisturbed formation must still succeed; distinct = (op, relation, fault, outcome) traces",
 		Real:        []string{"rhp4.Server (form/renew/refresh handlers)", "rhp4 RPCFormContract / RPCRenewContract / RPCRefreshContract* client", "wallet.SingleAddressWallet x2 (reservations)", "chain.Manager x1-2", "testutil.EphemeralContractor behind a recording wrapper"},
 		Stub:        []string{"transport: simrhp in-memory streams with typed relay and dial failures", "disk: simdisk.DB"},
 		Assumptions: []string{"renew / refresh attempts are only issued when renter and host share a node (the contract element must be known to both)"},
